@@ -24,7 +24,7 @@ ObsGroup(e, g) == LET r == e.groups[CHOOSE i \in DOMAIN e.groups : e.groups[i].g
 ObsGroups(e) == [g \in GroupsOf(e) |-> ObsGroup(e, g)]
 
 MVerdict(e) ==
-  LET nb == ToSet(e.nbr)
+  LET nb == ToSet(e.nbr) \cup ToSet(e.pend)    \* neighbours, incl. those whose disconnect notification is still queued
   IN    Clause("C38:no_panic", ~e.panicked)
      \o Clause("C38:peer_in_at_most_one_list",
                \A i \in DOMAIN e.groups :
@@ -43,7 +43,8 @@ MPost(e, G, A) ==
       gs == IF Has(e, "gs") THEN ToSet(e.gs) ELSE {}
   IN CASE e.op = "reset"      -> [G |-> [g \in GroupsOf(e) |-> NoGroup], A |-> <<>>]
        [] e.op = "connect"    -> [G |-> G, A |-> A]
-       [] e.op = "disconnect" -> [G |-> DisconnectIn(G, e.p), A |-> A]
+       [] e.op = "nbrdown"    -> [G |-> G, A |-> A]
+       [] e.op \in {"event", "disconnect"} -> [G |-> DisconnectIn(G, e.p), A |-> A]
        [] e.op = "notify"     -> [G |-> NotifyIn(G, e.p, e.join, gs, e.p \in nb), A |-> A]
        [] e.op = "handshake"  -> [G |-> HandshakeIn(G, IF e.p \in DOMAIN A THEN A[e.p] ELSE {}, e.p, gs, e.p \in nb),
                                   A |-> (e.p :> gs) @@ A]
